@@ -40,7 +40,10 @@ def gen_cases(r: Run):
     corpus = [("Br:0=2", Fraction(3, 10)), ("-", Fraction(0)), ("-", Fraction(1, 100)), ("C:0=0", Fraction(0)),
               ("H:0=2,O:0=1", Fraction(0)), ("Cl:0=2,C:0=1", Fraction(1, 10 ** 6)), ("S:0=8", Fraction(1, 10 ** 9)),
               ("Fe:0=2,O:0=3", Fraction(0)), ("Sn:0=2", Fraction(0)), ("C:0=9", Fraction(1, 10 ** 9)),
-              ("C:0=8,H:0=1", Fraction(1, 10 ** 6)), ("Br:0=1", Fraction(6, 10)), ("Ac:0=3", Fraction(0))]
+              ("C:0=8,H:0=1", Fraction(1, 10 ** 6)),
+              # threshold 0 on compositions whose heaviest isotopologues are far below one ulp of the total
+              ("H:0=5", Fraction(0)), ("H:0=8", Fraction(0)), ("C:0=8", Fraction(0)), ("N:0=8", Fraction(0)),
+              ("C:0=2,H:0=6,O:0=1", Fraction(0)), ("H:0=9,N:0=1", Fraction(0)), ("Br:0=1", Fraction(6, 10)), ("Ac:0=3", Fraction(0))]
     for pairs, t in corpus:
         for form in ("vec", "map"):
             cases.append((pairs, t, form))
